@@ -44,7 +44,7 @@ PROPS = {
     "C06": dict(level="exploration", race=False, quick_count=40000, quick_budget=40, thorough_budget=600),
     "C07": dict(level="fault_enumeration", race=False, quick_count=300, quick_budget=40, thorough_budget=600),
     "C08": dict(level="exploration", race=False, quick_count=4000, quick_budget=40, thorough_budget=600),
-    "C09": dict(level="exploration", race=False, quick_count=600, quick_budget=40, thorough_budget=600),
+    "C09": dict(level="exploration", race=False, quick_count=4000, quick_budget=40, thorough_budget=600),
     "C10": dict(level="fault_enumeration", race=True, quick_count=60, quick_budget=40, thorough_budget=600),
     "C12": dict(level="exploration", race=False, quick_count=20000, quick_budget=40, thorough_budget=600),
     "C13": dict(level="fault_enumeration", race=True, quick_count=60, quick_budget=40, thorough_budget=600),
@@ -185,6 +185,14 @@ def merge(results):
     return m
 
 
+def class_kinds(classes):
+    out = {}
+    for k in classes:
+        p = k.split("/")[0]
+        out[p] = out.get(p, 0) + 1
+    return dict(sorted(out.items()))
+
+
 def check(prop, tier):
     if prop not in PROPS:
         die("unknown property " + prop)
@@ -296,6 +304,7 @@ def _check(prop, tier, cfg, seed, t0, ev_path, tmpdir):
             "faults_and_events_fired": dict(sorted(m["fired"].items())),
             "faults_and_events_fired_total": fired_total,
             "distinct_schedule_classes": len(m["classes"]),
+            "distinct_classes_by_kind": class_kinds(m["classes"]),
             "schedule_classes_top": dict(sorted(m["classes"].items(), key=lambda kv: -kv[1])[:40]),
             "known_findings_seen": m["known_n"],
             "components": COMPONENTS,
